@@ -384,6 +384,8 @@ def load_known():
 
 
 def write_evidence(pid, tier, level, coverage, assumptions, wall, violations):
+    if os.environ.get("VERIF_NO_EVIDENCE"):
+        return
     os.makedirs(EVID, exist_ok=True)
     ev = {"property_id": pid, "tier": tier, "seed": seed(), "level": level, "coverage": coverage,
           "assumptions": assumptions, "wall_s": round(wall, 2), "violations": violations}
